@@ -39,6 +39,7 @@ import (
 	"strconv"
 	"strings"
 	"sync"
+	"sync/atomic"
 	"syscall"
 	"testing"
 	"time"
@@ -71,10 +72,32 @@ type vC01Scn struct {
 
 type vC01Srv struct {
 	h      *handler
+	guard  *vC01PanicGuard
 	srv    *httptest.Server
 	client *http.Client
 	roots  []string // in AllReadable() order
 	ro     []bool
+}
+
+// vC01PanicGuard counts panics of the keepstore handler (and lets net/http abort the connection as
+// it would anyway), so that the driver can tell "the handler panicked" (a reply that never came:
+// judged as a non-success) from a client transport error (connection reset, fd/port exhaustion:
+// infrastructure, never judged).
+type vC01PanicGuard struct {
+	h      http.Handler
+	panics int32
+}
+
+func (g *vC01PanicGuard) ServeHTTP(w http.ResponseWriter, r *http.Request) {
+	defer func() {
+		if e := recover(); e != nil {
+			if e != http.ErrAbortHandler {
+				atomic.AddInt32(&g.panics, 1)
+			}
+			panic(http.ErrAbortHandler)
+		}
+	}()
+	g.h.ServeHTTP(w, r)
 }
 
 func vC01Key(ro []bool) string {
@@ -134,7 +157,8 @@ func vC01NewSrv(base string, ro []bool) *vC01Srv {
 		s.roots = append(s.roots, rootOf[mnt.UUID])
 		s.ro = append(s.ro, mnt.ReadOnly)
 	}
-	s.srv = httptest.NewServer(h.Handler)
+	s.guard = &vC01PanicGuard{h: h.Handler}
+	s.srv = httptest.NewServer(s.guard)
 	s.client = &http.Client{Transport: &http.Transport{MaxIdleConnsPerHost: 4, DisableCompression: true}}
 	return s
 }
@@ -291,10 +315,15 @@ func (r *vC01Run) read(method string) map[string]interface{} {
 		panic(err)
 	}
 	ev := map[string]interface{}{"ev": strings.ToLower(method)}
+	panics := atomic.LoadInt32(&r.s.guard.panics)
 	resp, err := r.s.client.Do(req)
 	if err != nil {
-		// no reply at all (e.g. the handler panicked): not a success
-		ev["status"], ev["bodyok"], ev["lenok"], ev["note"] = 0, false, false, "transport: "+err.Error()
+		if atomic.LoadInt32(&r.s.guard.panics) == panics {
+			// a client transport error is not an observation of keepstore: the trace is dropped
+			return map[string]interface{}{"ev": "infra", "why": "transport: " + err.Error()}
+		}
+		// the keepstore handler panicked, no reply: not a success
+		ev["status"], ev["bodyok"], ev["lenok"], ev["note"] = 0, false, false, "handler panic; transport: "+err.Error()
 		ev["post"] = r.post()
 		return ev
 	}
@@ -324,9 +353,13 @@ func (r *vC01Run) put(bad bool) map[string]interface{} {
 		panic(err)
 	}
 	ev := map[string]interface{}{"ev": "put", "bodyok": vC01Hash(body) == r.hash}
+	panics := atomic.LoadInt32(&r.s.guard.panics)
 	resp, err := r.s.client.Do(req)
 	if err != nil {
-		ev["status"], ev["note"] = 0, "transport: "+err.Error()
+		if atomic.LoadInt32(&r.s.guard.panics) == panics {
+			return map[string]interface{}{"ev": "infra", "why": "transport: " + err.Error()}
+		}
+		ev["status"], ev["note"] = 0, "handler panic; transport: "+err.Error()
 		ev["post"] = r.post()
 		return ev
 	}
